@@ -353,7 +353,8 @@ BOUNDS = {"quick": {"agents": "<= 3", "steps": "<= 5 (file), <= 3 (window)", "re
           "thorough": {"agents": "<= 3", "steps": "<= 7 (file), <= 4 (window)", "records per collection": "0..2", "write_count": "all ints >= 0"}}
 OUTSIDE = ["clear_records_on_write=False (append mode then re-writes old records by construction)", "a real file system; a crash in the middle of write_records",
            "agent ids that collide with the keys 'timestep' or a composite key"]
-STUBS = ["ECAgent.Collectors.open replaced by an in-memory file system (append keeps, 'w' truncates, write appends in order)",
+STUBS = ["fault injection: open() raises OSError at a chosen flush (file_open_fails)",
+         "ECAgent.Collectors.open replaced by an in-memory file system (append keeps, 'w' truncates, write appends in order)",
          "Model.logger replaced by a no-op logger"]
 ASSUMPTIONS = ["records written by the test FileCollector are self-identifying strings"]
 
